@@ -133,12 +133,12 @@ Proof.
   destruct (Z.ltb_spec x (2 ^ 127)); [lia|]. reflexivity.
 Qed.
 
-(* the SDK's pool has no override: the trait's default netting goes through signed deltas.
-   On a pure pool it never fails and gives the same pool as the program's `&= 1`. *)
-Lemma pure_cancel_sdk (dbg : bool) p : wf_pure p -> cancel_sdk dbg p = cancel_prog p.
+(* the trait's default netting goes through signed deltas.
+   On a pure pool it never fails and gives the same pool as the override's `&= 1`. *)
+Lemma pure_cancel_default (dbg : bool) p : wf_pure p -> cancel_default dbg p = cancel_prog p.
 Proof.
   intros W. destruct (pure_views dbg p W) as [A B]. destruct W as (Hp & Hs & Hr).
-  unfold cancel_sdk. rewrite A, B. cbn [rbind].
+  unfold cancel_default. rewrite A, B. cbn [rbind].
   set (t := long_f p) in *.
   assert (H1 : t / 2 <=? ceil2 t = true) by (apply Z.leb_le; unfold ceil2; lia).
   rewrite H1.
@@ -169,22 +169,22 @@ Proof.
   destruct (Z.leb_spec (short_f p) (long_f p)); eexists; (split; [reflexivity|]); cbn; repeat split; lia.
 Qed.
 
-(* ... while the SDK's default fails as soon as the netted amount exceeds i128::MAX
-   (reported for C40: the SDK type lacks the program's override) *)
-Lemma impure_cancel_sdk_fails (dbg : bool) p : pure p = false -> in_range p ->
-  2 ^ 127 <= Z.min (long_f p) (short_f p) -> cancel_sdk dbg p = Err E_CONV.
+(* ... while the trait's default fails as soon as the netted amount exceeds i128::MAX
+   (this is why both Pool types override it; the SDK type lacked the override until fix c40-sdk-pool-cancel-override) *)
+Lemma impure_cancel_default_fails (dbg : bool) p : pure p = false -> in_range p ->
+  2 ^ 127 <= Z.min (long_f p) (short_f p) -> cancel_default dbg p = Err E_CONV.
 Proof.
-  intros Hp [Hl Hs] Hm. unfold cancel_sdk, long_amount, short_amount. rewrite Hp. cbn [rbind].
+  intros Hp [Hl Hs] Hm. unfold cancel_default, long_amount, short_amount. rewrite Hp. cbn [rbind].
   destruct (Z.leb_spec (short_f p) (long_f p)).
   - replace (Z.abs (long_f p - Z.abs (long_f p - short_f p))) with (short_f p) by lia.
     rewrite to_opposite_signed_err by lia. reflexivity.
   - rewrite to_opposite_signed_err by lia. reflexivity.
 Qed.
 
-Lemma impure_cancel_sdk_agrees (dbg : bool) p : pure p = false -> in_range p ->
-  Z.min (long_f p) (short_f p) <= 2 ^ 127 - 1 -> cancel_sdk dbg p = cancel_prog p.
+Lemma impure_cancel_default_agrees (dbg : bool) p : pure p = false -> in_range p ->
+  Z.min (long_f p) (short_f p) <= 2 ^ 127 - 1 -> cancel_default dbg p = cancel_prog p.
 Proof.
-  intros Hp [Hl Hs] Hm. unfold cancel_sdk, long_amount, short_amount. rewrite Hp. cbn [rbind].
+  intros Hp [Hl Hs] Hm. unfold cancel_default, long_amount, short_amount. rewrite Hp. cbn [rbind].
   unfold cancel_prog, cancel_amounts. rewrite Hp.
   destruct (Z.leb_spec (short_f p) (long_f p)).
   - replace (Z.abs (long_f p - Z.abs (long_f p - short_f p))) with (short_f p) by lia.
@@ -264,7 +264,7 @@ Proof.
       * rewrite (proj2 (fits_spec _) Hr). auto.
   - (* cancel: both implementations *)
     assert (E : (if sdk then cancel_sdk dbg p else cancel_prog p) = cancel_prog p).
-    { destruct sdk; [now apply pure_cancel_sdk|reflexivity]. }
+    { destruct sdk; reflexivity. }
     rewrite E. destruct (pure_cancel_prog p W) as (p' & E' & W' & I & L). rewrite E'. auto.
 Qed.
 
@@ -281,15 +281,21 @@ Proof.
     repeat split; try apply W2; try congruence.
 Qed.
 
-(* the SDK pool and the program pool go through identical states on pure pools *)
-Lemma pure_sdk_eq_prog (dbg : bool) ops p : wf_pure p -> run true dbg p ops = run false dbg p ops.
+(* the SDK pool and the program pool: the same netting on EVERY pool, hence identical states over any history *)
+Lemma sdk_cancel_eq_prog (dbg : bool) p : cancel_sdk dbg p = cancel_prog p.
+Proof. reflexivity. Qed.
+
+Lemma sdk_eq_prog (dbg : bool) ops : forall p, run true dbg p ops = run false dbg p ops.
 Proof.
-  revert p. induction ops as [|o ops IH]; intros p W; [reflexivity|].
+  induction ops as [|o ops IH]; intros p; [reflexivity|].
   unfold run in *. cbn [fold_left].
   assert (E : step_keep true dbg p o = step_keep false dbg p o).
-  { unfold step_keep, step. destruct o; try reflexivity. now rewrite pure_cancel_sdk. }
-  rewrite E. apply IH. apply (pure_step_keep false dbg p o W).
+  { unfold step_keep, step. destruct o; reflexivity. }
+  rewrite E. apply IH.
 Qed.
+
+Lemma pure_sdk_eq_prog (dbg : bool) ops p : wf_pure p -> run true dbg p ops = run false dbg p ops.
+Proof. intros _. apply sdk_eq_prog. Qed.
 
 (* views after netting a pure pool: only the parity remainder, on the long side *)
 Lemma pure_cancel_views (dbg : bool) p : wf_pure p ->
@@ -300,8 +306,8 @@ Proof.
   unfold ceil2. split; f_equal; lia.
 Qed.
 
-Lemma sdk_cancel_witness :
+Lemma default_cancel_witness :
   let p := mkp 0 (2 ^ 128 - 1) (2 ^ 127) in
   pure p = false /\ in_range p /\
-  cancel_prog p = Ok (mkp 0 (2 ^ 127 - 1) 0) /\ cancel_sdk true p = Err E_CONV.
+  cancel_prog p = Ok (mkp 0 (2 ^ 127 - 1) 0) /\ cancel_default true p = Err E_CONV /\ cancel_sdk true p = cancel_prog p.
 Proof. vm_compute. repeat split; congruence. Qed.
